@@ -23,8 +23,7 @@ Let a := cw * (- 2 * sh * sh) + sw * (2 * sh * ch) * ce.
 Let b := - (2 * sh * ch) * se.
 Let D := a * a + b * b.
 Let so := (b * gx - a * gy) / D.
-Let co := (gx - b * so) / a.
-Hypothesis Ha : a <> 0.
+Let co := (a * gx + b * gy) / D.
 
 Lemma core_D : D = 4 * sh * sh * (gx * gx + gy * gy).
 Proof.
@@ -37,8 +36,11 @@ Qed.
 Lemma core_D_nz : D <> 0.
 Proof. rewrite core_D. assert (0 < sh * sh) by nra. apply Rmult_integral_contrapositive_currified; [nra | exact Hxy]. Qed.
 
+(* the form used before the repair of F11 (division by a) agrees wherever it is defined *)
+Lemma core_co_old : a <> 0 -> (gx - b * so) / a = co.
+Proof. intros Ha. unfold co, so. pose proof core_D_nz as N. unfold D in *. field. split; [exact N | exact Ha]. Qed.
 Lemma core_co : co = (a * gx + b * gy) / D.
-Proof. unfold co, so. pose proof core_D_nz as N. unfold D in *. field. split; [exact N | exact Ha]. Qed.
+Proof. reflexivity. Qed.
 
 Lemma core_unit : (2 * sh * so) * (2 * sh * so) + (2 * sh * co) * (2 * sh * co) = 1.
 Proof.
@@ -100,7 +102,7 @@ Definition wedge_omega (g : V3) (tth wedge eta : R) : R :=
   let a := wedge_a g tth wedge in
   let b := - sin tth * sin eta in
   let so := (b * (vx g / n) - a * (vy g / n)) / (a * a + b * b) in
-  atan2 so ((vx g / n - b * so) / a).
+  atan2 so ((a * (vx g / n) + b * (vy g / n)) / (a * a + b * b)).
 
 Lemma wedge_refines g tth wedge :
   laue_find_omega_wedge g tth wedge =
@@ -125,7 +127,6 @@ Let n := sqrt (vx g * vx g + vy g * vy g + vz g * vz g).
 Let gn := normalise_to tth g.
 Let ce := wedge_coseta g tth wedge.
 Hypothesis Hce : Rabs ce <= 1.
-Hypothesis Ha : wedge_a g tth wedge <> 0.
 
 Lemma n_pos : 0 < n.
 Proof. unfold n. apply sqrt_lt_R0. pose proof (Rle_0_sqr (vz g)) as Q. unfold Rsqr in Q. assert (0 <= vx g * vx g) by nra. assert (0 <= vy g * vy g) by nra. lra. Qed.
@@ -165,17 +166,16 @@ Proof.
   assert (Ea : wedge_a g tth wedge = cos wedge * (- 2 * sh * sh) + sin wedge * (2 * sh * ch) * ce).
   { unfold wedge_a. fold ce. rewrite S, C. ring. }
   assert (Eb : - sin tth * sin eta = - (2 * sh * ch) * sin eta) by (rewrite S; ring).
-  rewrite Ea in Ha.
-  pose proof (core_unit gx gy gz sh ch (sin wedge) (cos wedge) ce (sin eta) G1 Hh Hw He Hrel Hs Gxy Ha) as CU.
-  pose proof (core_vx gx gy gz sh ch (sin wedge) (cos wedge) ce (sin eta) G1 Hh Hw He Hrel Hs Gxy Ha) as CX.
-  pose proof (core_vy gx gy gz sh ch (sin wedge) (cos wedge) ce (sin eta) G1 Hh Hw He Hrel Hs Gxy Ha) as CY.
+  pose proof (core_unit gx gy gz sh ch (sin wedge) (cos wedge) ce (sin eta) G1 Hh Hw He Hrel Hs Gxy) as CU.
+  pose proof (core_vx gx gy gz sh ch (sin wedge) (cos wedge) ce (sin eta) G1 Hh Hw He Hrel Hs Gxy) as CX.
+  pose proof (core_vy gx gy gz sh ch (sin wedge) (cos wedge) ce (sin eta) G1 Hh Hw He Hrel Hs Gxy) as CY.
   pose proof (core_x gz sh ch (sin wedge) (cos wedge) ce Hw Hrel) as KX.
   pose proof (core_z gz sh ch (sin wedge) (cos wedge) ce Hw Hrel) as KZ.
   cbv zeta in CU, CX, CY, KX, KZ.
   set (a := cos wedge * (- 2 * sh * sh) + sin wedge * (2 * sh * ch) * ce) in *.
   set (b := - (2 * sh * ch) * sin eta) in *.
   set (so := (b * gx - a * gy) / (a * a + b * b)) in *.
-  set (co := (gx - b * so) / a) in *.
+  set (co := (a * gx + b * gy) / (a * a + b * b)) in *.
   assert (Ew : wedge_omega g tth wedge eta = atan2 (2 * sh * so) (2 * sh * co)).
   { unfold wedge_omega; cbv zeta. fold n gx gy. rewrite Ea, Eb. fold a b so co. symmetry. apply atan2_scale. lra. }
   assert (Cw : cos (wedge_omega g tth wedge eta) = 2 * sh * co) by (rewrite Ew; apply cos_atan2_unit; exact CU).
@@ -197,7 +197,7 @@ Theorem laue_find_omega_wedge_sound g tth wedge oms etas :
   laue_find_omega_wedge g tth wedge = (oms, etas) ->
   let gn := normalise_to tth g in let ce := wedge_coseta g tth wedge in
   (1 < Rabs ce -> oms = [] /\ etas = []) /\
-  (Rabs ce <= 1 -> wedge_a g tth wedge <> 0 ->
+  (Rabs ce <= 1 ->
      exists w1 w2, oms = [w1; w2] /\ etas = [acos ce; - acos ce] /\
        diffracts (wedge_mat wedge w1) gn tth (acos ce) /\ diffracts (wedge_mat wedge w2) gn tth (- acos ce) /\
        - PI < w1 <= PI /\ - PI < w2 <= PI).
@@ -205,21 +205,21 @@ Proof.
   intros Ht Hg Hcw E gn ce. rewrite wedge_refines in E. cbv zeta in E. fold ce in E.
   destruct (Rlt_dec 1 (Rabs ce)) as [L|L]; injection E as <- <-.
   - split; [auto | intros; lra].
-  - split; [intros; lra|]. intros Hle Ha.
+  - split; [intros; lra|]. intros Hle.
     assert (B : -1 <= ce <= 1) by (apply Rabs_le_inv'; exact Hle).
-    destruct (wedge_solution g tth wedge Ht Hg Hcw Ha (acos ce)) as [D1 R1]; [apply cos_acos; exact B|].
-    destruct (wedge_solution g tth wedge Ht Hg Hcw Ha (- acos ce)) as [D2 R2]; [rewrite cos_neg; apply cos_acos; exact B|].
+    destruct (wedge_solution g tth wedge Ht Hg Hcw (acos ce)) as [D1 R1]; [apply cos_acos; exact B|].
+    destruct (wedge_solution g tth wedge Ht Hg Hcw (- acos ce)) as [D2 R2]; [rewrite cos_neg; apply cos_acos; exact B|].
     eexists _, _. split; [reflexivity|]. split; [reflexivity|]. split; [exact D1|]. split; [exact D2|]. split; [exact R1 | exact R2].
 Qed.
 
 (* none missed: any omega in (-pi, pi] that brings the x-component to -sin^2(theta) is returned (and then |cos eta| <= 1) *)
 Theorem laue_find_omega_wedge_complete g tth wedge w :
-  0 < tth < PI -> vx g * vx g + vy g * vy g <> 0 -> cos wedge <> 0 -> wedge_a g tth wedge <> 0 ->
+  0 < tth < PI -> vx g * vx g + vy g * vy g <> 0 -> cos wedge <> 0 ->
   let gn := normalise_to tth g in
   - PI < w <= PI -> vx (mvmul (wedge_mat wedge w) gn) = - (sin (tth / 2) * sin (tth / 2)) ->
   Rabs (wedge_coseta g tth wedge) <= 1 /\ In w (fst (laue_find_omega_wedge g tth wedge)).
 Proof.
-  intros Ht Hg Hcw Ha gn Hw Hx.
+  intros Ht Hg Hcw gn Hw Hx.
   assert (Hg3 : vx g * vx g + vy g * vy g + vz g * vz g <> 0).
   { pose proof (Rle_0_sqr (vz g)) as Q. unfold Rsqr in Q. assert (0 <= vx g * vx g) by nra. assert (0 <= vy g * vy g) by nra.
     intro Z. apply Hg. lra. }
@@ -246,7 +246,7 @@ Proof.
     field. repeat split; try lra; exact Hcw. }
   assert (Hle : Rabs (wedge_coseta g tth wedge) <= 1) by (rewrite <- Hc; apply Rabs_le; pose proof (COS_bound eta); lra).
   split; [exact Hle|].
-  destruct (wedge_solution g tth wedge Ht Hg Hcw Ha eta Hc) as [D' R'].
+  destruct (wedge_solution g tth wedge Ht Hg Hcw eta Hc) as [D' R'].
   set (w' := wedge_omega g tth wedge eta) in *.
   (* same image of gn under both matrices -> same omega *)
   assert (Eq : w = w').
@@ -277,13 +277,13 @@ Lemma tools_find_omega_wedge_sound g tth wedge oms etas :
   tools_find_omega_wedge g tth wedge = (oms, etas) ->
   let gn := normalise_to tth g in let ce := wedge_coseta g tth wedge in
   (1 < Rabs ce -> oms = [] /\ etas = []) /\
-  (Rabs ce <= 1 -> wedge_a g tth wedge <> 0 ->
+  (Rabs ce <= 1 ->
      exists w1 w2, oms = [w1; w2] /\ etas = [acos ce; - acos ce] /\
        diffracts (wedge_mat wedge w1) gn tth (acos ce) /\ diffracts (wedge_mat wedge w2) gn tth (- acos ce) /\
        - PI < w1 <= PI /\ - PI < w2 <= PI).
 Proof. rewrite tl_find_omega_wedge. apply laue_find_omega_wedge_sound. Qed.
 Lemma tools_find_omega_wedge_complete g tth wedge w :
-  0 < tth < PI -> vx g * vx g + vy g * vy g <> 0 -> cos wedge <> 0 -> wedge_a g tth wedge <> 0 ->
+  0 < tth < PI -> vx g * vx g + vy g * vy g <> 0 -> cos wedge <> 0 ->
   let gn := normalise_to tth g in
   - PI < w <= PI -> vx (mvmul (wedge_mat wedge w) gn) = - (sin (tth / 2) * sin (tth / 2)) ->
   Rabs (wedge_coseta g tth wedge) <= 1 /\ In w (fst (tools_find_omega_wedge g tth wedge)).
